@@ -252,6 +252,42 @@ def run(db, cx):
                   "boundary-limited step")
     cx.require(db.get(D + "BoundaryAction::step"), "anchor BoundaryAction::step not found")
 
+    # 5b a propagation that ends on a boundary hands the track to the boundary action
+    BND = "F:" + C + "Propagation::boundary"
+    SIMPSA = C + "SimTrackView::post_step_action"
+
+    def sets_boundary_action(e):
+        return e["e"] == "call" and e["callee"] == SIMPSA and len(e.get("args", [])) == 1 and \
+            C + "CoreTrackView::boundary_action" in e["args"][0].get("calls", [])
+    appl = db.get(D + "PropagationApplierBaseImpl::operator()")
+    cx.require(appl, "anchor PropagationApplierBaseImpl::operator() not found")
+    for f in appl:
+        tag = f.inst.split("<")[-1][:50]
+        brs = f.branch_blocks(lambda c, _b: BND in c.get("refs", []) and not c.get("op"))
+        ok = bool(brs)
+        detail = "no branch on Propagation::boundary" if not brs else ""
+        path = None
+        for br in brs:
+            tgt = f.blocks[br]["succ"][f.cond_polarity_edge(br, True)]
+            okp, pth = f.must_pass(sets_boundary_action, start=(tgt, -1))
+            if not okp:
+                ok = False
+                path = f.path_locs(pth)
+                detail = "a path from the true edge of `%s` reaches the exit without " \
+                         "post_step_action(boundary_action())" % f.blocks[br]["cond"]["t"]
+        cx.ob("C05.5-boundary-dispatch", "PropagationApplier: p.boundary => post-step action is the "
+              "boundary action [%s]" % tag, ok, detail or "must-pass from the true edge of p.boundary",
+              short(f.loc), path=path,
+              why="the propagator has already moved the geometry state onto the surface; if the "
+                  "boundary action is not dispatched the track continues in the old volume and "
+                  "material although its position is beyond the boundary")
+        for (b, i, ev) in f.events("call", sets_boundary_action):
+            g = any(f.guarded_by_edge((b, i), br, f.cond_polarity_edge(br, True)) for br in brs)
+            cx.ob("C05.5-boundary-dispatch", "PropagationApplier: boundary action only on the "
+                  "p.boundary edge [%s]" % tag, g, "", short(ev["loc"]),
+                  why="dispatching the boundary action for a track that is not on a boundary "
+                      "changes its volume without a boundary-limited step")
+
     # 6 remaining MFP -----------------------------------------------------------
     P = C + "PhysicsTrackView::"
     w = setters(db, P + "interaction_mfp", 1)
